@@ -69,6 +69,18 @@ type scanner struct {
 	i     int
 	depth int
 	res   scanRes
+	// recording (minimiser): spans of all values, and of the elements/members of each container
+	rec   bool
+	vals  [][2]int
+	elems [][3]int // start, end, container id
+	nCont int
+}
+
+// scanSpans scans a document and returns the byte spans of its values and container elements.
+func scanSpans(s string) (ok bool, vals [][2]int, elems [][3]int) {
+	p := &scanner{s: s, rec: true}
+	ok = p.doc()
+	return ok, p.vals, p.elems
 }
 
 func scanDoc(s string) scanRes {
@@ -133,6 +145,18 @@ func isHex(b byte) bool {
 }
 
 func (p *scanner) value() bool {
+	if p.rec {
+		start := p.i
+		ok := p.value1()
+		if ok {
+			p.vals = append(p.vals, [2]int{start, p.i})
+		}
+		return ok
+	}
+	return p.value1()
+}
+
+func (p *scanner) value1() bool {
 	if p.i >= len(p.s) {
 		return p.fail("unexpected-eof")
 	}
@@ -410,12 +434,18 @@ func (p *scanner) arr() bool {
 		p.res.feat |= 1 << fEmptyArr
 		return true
 	}
+	p.nCont++
+	id := p.nCont
 	for {
 		if p.i >= len(p.s) {
 			return p.fail("unterminated-container")
 		}
+		es := p.i
 		if !p.value() {
 			return false
+		}
+		if p.rec {
+			p.elems = append(p.elems, [3]int{es, p.i, id})
 		}
 		p.ws()
 		if p.i >= len(p.s) {
@@ -451,10 +481,13 @@ func (p *scanner) obj() bool {
 		p.res.feat |= 1 << fEmptyObj
 		return true
 	}
+	p.nCont++
+	id := p.nCont
 	for {
 		if p.i >= len(p.s) {
 			return p.fail("unterminated-container")
 		}
+		es := p.i
 		switch c := p.s[p.i]; {
 		case c == '"':
 		case c == '\'':
@@ -492,6 +525,9 @@ func (p *scanner) obj() bool {
 		}
 		if !p.value() {
 			return false
+		}
+		if p.rec {
+			p.elems = append(p.elems, [3]int{es, p.i, id})
 		}
 		p.ws()
 		if p.i >= len(p.s) {
